@@ -58,6 +58,11 @@ impl ShardOut {
         }
     }
     pub fn viol(&mut self, v: Viol) {
+        // a problem of the harness itself (a wait that ran out of time, a generator mistake) is a case not judged
+        if v.prop == "HARNESS" {
+            self.inconclusive.push(format!("{}: {}", v.sig, v.text));
+            return;
+        }
         // keep the first witness per signature, count the rest
         self.count(&format!("viol:{}", v.sig), 1);
         if !self.viols.iter().any(|x| x.sig == v.sig) && self.viols.len() < 50 {
@@ -179,6 +184,41 @@ pub fn load_known() -> Vec<Known> {
     out
 }
 
+/// Counters that must be non-zero in every run of a check (quick and thorough).
+pub fn required_counters(id: &str) -> &'static [&'static str] {
+    match id {
+        "C01" => &["rotations", "reads_checked", "returned_segments_checked", "files_compared_bytewise"],
+        "C02" => &["restarts", "restarts_at_the_end_of_the_history", "rejected_calls", "writes_that_hit_an_injected_chunk_creation_failure", "full_queue_rounds"],
+        "C03" | "C05" => &[
+            "distinct_images_opened_by_real_recovery",
+            "crash_after:worker:sync",
+            "crash_after:worker:unlink",
+            "crash_after:worker:write",
+            "crash_after:caller:create",
+            "family:process_crash",
+            "family:inside_write",
+            "family:power_loss_zero_fill",
+            "family:power_loss_cut_interior",
+            "faults_injected",
+            "second_level_images",
+            "continuations_run(8_writes+flush+restart)",
+        ],
+        "C04" => &["acks_ok_checked_against_shadow_fs", "acks_ok_spanning_several_chunk_files", "acks_err", "faults_injected", "full_queue_rounds", "shutdown_cases(flush_with_callback_then_drop)"],
+        "C06" => &["rejected_calls", "restarts_at_the_end_of_the_history", "partial_order_vote:incomparable_votes_tried"],
+        "C07" => &["cache_misses_served_from_disk", "concurrent_reader_results_checked", "eviction_boundary_checks_after_sync", "held_snapshots_iterated_later", "reads_after_crash_restart", "full_queue_rounds"],
+        "C08" => &["unlinks_checked", "end_state_checks", "faults_injected", "unlinks_in_histories_with_an_earlier_failed_sync", "deleted_chunks_that_contained_a_purge_record"],
+        "C09" => &["opens_of_mutated_images", "middle_chunks_removed", "bytes_altered_underneath_an_open_store_then_read", "images_with_purged_chunk_files_still_present", "mutations_also_opened_with_truncation_disabled", "mutations_also_listed_with_the_Dump_tool"],
+        "C10" => &["cut_positions", "zero_tail_images", "cases_with_truncation_disabled", "continuations(5_writes+flush+restart)"],
+        "C11" => &["files_compared_bytewise", "returned_segments_checked", "file_names_round_tripped", "rotations", "full_queue_rounds", "writes_that_hit_an_injected_chunk_creation_failure"],
+        "C12" => &["decodes", "roundtrip:append", "roundtrip:state", "roundtrip:vote", "roundtrip:commit", "roundtrip:purge", "roundtrip:truncate", "mutation:truncate", "mutation:subst:len_prefix"],
+        "C13" => &["refusals(contention_observed)", "acquisitions_as_dump", "process_rounds", "attempts_against_a_parked_writing_owner", "chunk_file_comparisons_after_refusals", "fork_rounds(owner_dropped_while_a_forked_child_holds_its_descriptors)"],
+        "C14" => &["new_instance_purge_flush_acked", "placement:0", "placement:1", "placement:2", "placement:3", "placement:4", "opener_parked_inside_open", "unflushed_writes_after_the_last_ack"],
+        "C15" => &["cache_observations", "observations_over_limit_after_append", "pinned_entries_seen_over_limit", "drain_checks", "walk:accounting_observations", "walk:appends_of_an_id_appended_before"],
+        "C16" => &["adversarial_calls", "concurrent_rounds(4_readers+drainer)", "walk:update_state_calls", "walk:appends_of_an_id_appended_before", "partial_order_vote:incomparable_votes_tried"],
+        _ => &[],
+    }
+}
+
 pub struct PropMeta {
     pub id: &'static str,
     pub level: &'static str,
@@ -228,6 +268,27 @@ pub fn finish(meta: &PropMeta, tier: Tier, seed: u64, merged: &mut ShardOut, wal
         inconclusive.push(format!("observed too little: evaluations={} distinct_nontrivial={} (need >= {})", merged.evaluations, distinct, meta.min_distinct.max(2)));
     }
     let n_inc_cases = merged.inconclusive.len();
+    // every sub-oracle of the check must have observed something: a counter that stays at zero means that part of
+    // the rule was never evaluated (the run is then not "held", whatever the other parts saw)
+    for k in required_counters(meta.id) {
+        if merged.counters.get(*k).copied().unwrap_or(0) == 0 {
+            inconclusive.push(format!("sub-oracle observed nothing: counter '{}' is 0", k));
+        }
+    }
+    // cases that could not be judged are tolerated one by one (a watchdog, a shard under load), not in bulk: many
+    // unjudgeable cases of one kind mean that this scenario no longer runs to its oracle
+    {
+        let mut by_kind: BTreeMap<String, u64> = BTreeMap::new();
+        for i in &merged.inconclusive {
+            let kind: String = i.split(|c: char| c.is_ascii_digit()).next().unwrap_or("").chars().take(60).collect();
+            *by_kind.entry(kind).or_insert(0) += 1;
+        }
+        for (k, n) in by_kind {
+            if n >= 12 {
+                inconclusive.push(format!("{} cases could not be judged: '{}...'", n, k.trim()));
+            }
+        }
+    }
 
     let mut coverage = serde_json::Map::new();
     coverage.insert("evaluations".into(), json!(merged.evaluations));
@@ -264,6 +325,7 @@ pub fn finish(meta: &PropMeta, tier: Tier, seed: u64, merged: &mut ShardOut, wal
     };
     coverage.insert("verdict".into(), json!(verdict));
     coverage.insert("run_problems".into(), json!(inconclusive));
+    coverage.insert("counters_required_to_be_nonzero".into(), json!(required_counters(meta.id)));
 
     let ev = json!({
         "property_id": meta.id,
